@@ -66,7 +66,8 @@ Record inv (s : state) : Prop := mkInv {
   i_qwf : forall e pid, in_queue (queue s) (e, pid) = true -> exists p, get pid (pools s) = Some p /\ p_end p = e;
   i_qnd : NoDup (queue s);
   i_height : 0 <= height s;
-  i_seq : 0 <= seq s
+  i_seq : 0 <= seq s;
+  i_nodup : NoDup (keys (pools s))
 }.
 
 (** ** sums over the pools *)
